@@ -90,8 +90,10 @@ def system_search(run, rnd, dates, n_pops):
         dag, fno = popgen.graph(date)
         rules = [n for n in popgen.computed_nodes(date) if n in functions
                  and not getattr(functions[n], "__info__", {}).get("skip_vectorization")]
-        for k in range(n_pops):
-            df, kinds = popgen.population(rnd, date)
+        for k in range(n_pops + 2 * n_pops):
+            # besides the mixed populations, tables of near-identical persons (finite-difference tables): nothing may be
+            # shared between rows just because their inputs are almost equal
+            df, kinds = popgen.near_copies(rnd, date) if k >= n_pops else popgen.population(rnd, date)
             # rows whose first element takes an integer-literal branch are the classic trap: rotate
             ok, res = run.attempt(f"simulate(rounding=False) at {date}", popgen.simulate_all, df, date, rounding=False,
                                   replay={"date": date, "data": popgen.frame_to_json(df)})
@@ -250,7 +252,7 @@ def run(tier: str) -> int:
               "input) with and without declared type vs the Lean model (dtype and values exactly); search: every scalar rule of "
               "the default graph at the sampled dates, production column (rounding off) vs the rule called row by row on its "
               "parents' columns — exact equality and dtype = declared type. distinct = distinct result sequences / (rule, date, population).")
-    common.build_and_audit(r, ["C03", "C03Types"], leanchecker=not quick)
+    common.build_and_audit(r, ["C03", "C03Types", "C03Sim"], leanchecker=not quick)
     rnd = common.rng("C03")
     wrapper_correspondence(r, rnd, 300 if quick else 5000)
     static_kinds(r, rnd, popgen.DATES_QUICK + ["2015-01-01"] if quick else popgen.DATES_2015 + ["2005-01-01", "2010-01-01"], 40 if quick else 200)
